@@ -91,14 +91,17 @@ def rx_conformance():
                "rxeq", witness=repr(bad[:2]), detail=repr(bad[:3]))]
 
 
-@scenario("canary:symre", "LineParser.get_splitted_operands", ["*"], doc="'operand order reversed' must be refuted")
+@scenario("canary:symre", "vf.symre.split", ["*"], doc="'operand order reversed' must be refuted")
 def canary_symre():
     ensure()
     from vf import sstr
 
     def fn():
         a, b = sstr.var("r0", "%[a-z0-9]+"), sstr.var("k1", "0x[0-9a-f]+") + "(" + sstr.var("a1", "%[a-z0-9]+") + ")"
-        got = J.lp.LineParser.get_splitted_operands(a + "," + b)
+        # the engine under test is symre (re.split on a structured string), driven directly so that the canary does not depend
+        # on how the repository happens to implement its splitter
+        from vf import rt
+        got = rt._Re().split(r",(?![^\(]*\))", a + "," + b)
         return [[str.__str__(x) for x in got], [str.__str__(b), str.__str__(a)]]
     run = sym_run(fn)
     refuted = all(p.kind == "ret" and p.value[0] != p.value[1] for p in run.paths)
